@@ -2,6 +2,7 @@ import FsModel.Driver
 import FsModel.DriverGrid
 import FsModel.Mst
 import FsModel.Spl
+import FsModel.Blocks
 
 /-! Scenario loop of `fsmodel`. -/
 namespace Fs.Driver
@@ -56,6 +57,35 @@ def callSpl (c : Call) (st : St) : List String :=
       if hang then ["O hang"]
       else [ line "erosion" (joinF ero.toList), line "ncorr" (toString nc) ]
   | _ => ["O model-bad-spl"]
+
+/-! ### worker pool: block arithmetic and API programs -/
+
+def blocksLine (pre : String) (first last n mn : Nat) : String :=
+  let b := Fs.mkBlocks first last n mn
+  line pre (" ".intercalate ((toString b.nb) :: (List.range b.nb).flatMap (fun k => [toString (b.start k), toString (b.stop k)])))
+
+/-- `pool N [schedule tokens] prog…`: what every run must report whatever the schedule -/
+def poolProg (toks : List String) : List String :=
+  match toks with
+  | _ :: n :: rest =>
+    let prog := rest.filter (fun t => !(t.startsWith "d:" || t.startsWith "rand:"))
+    let (outs, _, _) := prog.foldl (fun (acc : List String × Nat × Nat) op =>
+      let (outs, size, runs) := acc
+      match op.splitOn ":" with
+      | ["run", f, l, mn] =>
+        let first := natOf f
+        let last := natOf l
+        let ls := if last > first then
+            [blocksLine ("run" ++ toString runs) first last size (natOf mn), line ("run" ++ toString runs ++ "_once") "1"]
+          else [line ("run" ++ toString runs) "0", line ("run" ++ toString runs ++ "_once") "1"]
+        (outs ++ ls, size, runs + 1)
+      | ["pause"] => (outs ++ ["O pause_paused 1"], size, runs)
+      | ["resume"] => (outs ++ ["O resume_paused 0"], size, runs)
+      | ["resize", m] => (outs ++ [line "resize_size" m], natOf m, runs)
+      | ["stop"] => (outs ++ ["O stop_stopped 1"], size, runs)
+      | _ => (outs ++ ["O model-bad-pool-op"], size, runs)) ([], natOf n, 0)
+    outs ++ ["O pool_done 1"]
+  | _ => ["O model-bad-pool"]
 
 structure DSt where
   st : St := {}
@@ -117,6 +147,8 @@ def runCall (d : DSt) (c : Call) : DSt × List String :=
   | ["qr", kind, i] => (d, gridQueryR d.grid kind (natOf i))
   | ["iter", which, dir] => (d, gridIter d.grid which dir)
   | "adi" :: _ => (d, gridAdi d.grid c.toks)
+  | ["blocks", f, l, n, mn] => (d, [blocksLine "blocks" (natOf f) (natOf l) (natOf n) (natOf mn)])
+  | "pool" :: _ => (d, poolProg c.toks)
   | "graph" :: _ =>
     let (st', outs) := runFlow d.st c
     ({ d with st := st' }, [line "topo_model_agrees" (if topoAgrees d.grid st' then "1" else "0")] ++ outs)
